@@ -98,6 +98,39 @@ def unicode_property_grammars(rep) -> None:
     rep.extra["unicode_property_probe_calls"] = n
 
 
+def peek_slice_probes(rep) -> None:
+    """PEEK[a..b] with every small index pair on stacks of depth 0..3.  What an index outside the stack should MATCH is pinned by no
+    statement (pest fails, Python slices clamp) - but whatever it does, it must be Pairs or PestParsingError, the same on a second
+    call and in all four modes."""
+    from . import modes as M  # noqa: PLC0415
+
+    pest = C.import_pest()
+    idx = ["", "0", "1", "2", "3", "-1", "-2", "-3", "-4"]
+    n = 0
+    for depth in range(4):
+        setup = " ~ ".join(['PUSH("x")'] * depth + ['"-"'])
+        for a in idx:
+            for b in idx:
+                g = f'r = {{ {setup} ~ PEEK[{a}..{b}] ~ "y"? ~ EOI }}'
+                first = {}
+                for mode in M.MODES:
+                    try:
+                        p, _ = M.build(pest, g, mode)
+                    except Exception as e:  # noqa: BLE001
+                        rep.violation({"kind": "build", "grammar": g, "mode": mode}, f"{g!r} failed to build in mode {mode}: {type(e).__name__}: {e}")
+                        continue
+                    for t in ("x" * depth + "-" + "x" * k + tail for k in range(depth + 2) for tail in ("", "y")):
+                        o, o2 = M.run_parse(pest, p, "r", t), M.run_parse(pest, p, "r", t)
+                        n += 2
+                        if "ok" not in o or o != o2:
+                            rep.violation({"kind": "total", "grammar": g, "mode": mode, "rule": "r", "input": t, "observed": o}, f"{g!r} [{mode}] on {t!r}: {str(o)[:160]}{'' if o == o2 else ' (second call differs)'}")
+                        key = (o.get("ok"), str(o.get("pairs")))
+                        if first.setdefault(t, key) != key:
+                            rep.violation({"kind": "modes-disagree", "grammar": g, "mode": mode, "rule": "r", "input": t, "observed": o}, f"{g!r} on {t!r}: mode {mode} and mode interp disagree on success / tree")
+    rep.evaluations += n
+    rep.extra["peek_slice_probe_calls"] = n
+
+
 def run(tier: str) -> int:
     rep = C.Report("C07", tier)
     rep.distinct = None
@@ -143,6 +176,7 @@ def run(tier: str) -> int:
         replay.run_family(rep, f, "total", modes)
     long_inputs(rep, thorough)
     unicode_property_grammars(rep)
+    peek_slice_probes(rep)
     rep.rule = "union of the well-formed families of spec/Families.tla x inputs to MaxLen x four execution modes, each call made twice; a case = (grammar, input, start); non-trivial = reference outcome is a successful parse"
     rep.exhaustive = False
     rep.assumptions = ["domain = WellFormed grammars (no left recursion, no undefined rule, no nullable repetition) as in the statement"]
